@@ -330,7 +330,7 @@ func TestReplay(t *testing.T) {
 		runBulkBoth(t, "TestReplay", c)
 		return
 	}
-	if env.Test == "TestC02Squeeze" || env.Test == "TestC07Squeeze" {
+	if env.Test == "TestC02Squeeze" || env.Test == "TestC07Squeeze" || env.Test == "TestC06Squeeze" {
 		var c SqueezeCase
 		if _, err := vstat.LoadReplay(p, &c); err != nil {
 			t.Fatalf("cannot decode %s: %v", p, err)
